@@ -1,9 +1,181 @@
 import NibabelModel.Model.C07
 import Driver.Util
-/-! Line-protocol driver for C07: `C07 <op> <args...>` -> one observable line. -/
+/-! Line-protocol driver for C07.
+
+  `C07 run <cls> <owned 0|1> <off,dt,slope,inter> <alias> <exts> <mat> <resolve> <table> <ops>`
+
+  * slope/inter: `n` (NaN) or the raw bits as a natural number; alias: `-`|`c`|`s`
+  * exts: `-` or `content:pad,content:pad,…`; mat: `-` or `n,n,…` (write sizes)
+  * resolve: `<compat>,<smallest>`, each a dtype code or `x` (ValueError)
+  * table: `-` or `code:wok:slope:inter:nWrites:wBytes;…` (writer externals per out dtype code)
+  * ops: `;`-separated — `S:<dt>:<fault>:<fm>` (dt `-`|`c<code>`|`ac`|`as`|`x`; fault `-`|`k<n>`|`b<n>`;
+    fm `-`|id), `D:<code>`, `A:<c|s>`; add the prefix `O` to `S` (`OS:…`) to run the ORIGINAL save.
+
+  Output: one block per op joined by ` | `:
+    `<ok|ERR:…> n=<io calls> [<io log>] <state> out=<id|->`  (saves)   /   `<ok|ERR:…> <state>`
+  state = `off,dt,slope,inter,alias,fm,hdrobj,h<first-seen id of the header fields>`. -/
 namespace Nb.Drv.C07
+open Nb.C07
+
+def parseCls? : String → Option Cls
+  | "analyze" => some .analyze | "spm99" => some .spm99 | "spm2" => some .spm2
+  | "n1pair" => some .n1pair | "n1single" => some .n1single
+  | "n2pair" => some .n2pair | "n2single" => some .n2single
+  | "mgh" => some .mgh | "cifti2" => some .cifti2
+  | _ => none
+
+def parseScl? (s : String) : Option Scl :=
+  if s = "n" then some none else s.toNat?.map some
+
+def parseAliasOpt? : String → Option (Option Alias)
+  | "-" => some none | "c" => some (some .compat) | "s" => some (some .smallest)
+  | _ => none
+
+def parseBool? : String → Option Bool
+  | "0" => some false | "1" => some true | _ => none
+
+def parseHdr? (s : String) : Option Hdr :=
+  match s.splitOn "," with
+  | [o, d, sl, i] =>
+      match o.toNat?, d.toNat?, parseScl? sl, parseScl? i with
+      | some o, some d, some sl, some i => some ⟨o, d, sl, i⟩
+      | _, _, _, _ => none
+  | _ => none
+
+def parseExts? (s : String) : Option (List (Nat × Nat)) :=
+  if s = "-" then some [] else
+    (s.splitOn ",").mapM fun e =>
+      match e.splitOn ":" with
+      | [a, b] => match a.toNat?, b.toNat? with
+          | some a, some b => some (a, b)
+          | _, _ => none
+      | _ => none
+
+def parseCodeOpt? (s : String) : Option (Option Nat) :=
+  if s = "x" then some none else s.toNat?.map some
+
+def parseResolve? (s : String) : Option (Alias → Option Nat) :=
+  match s.splitOn "," with
+  | [c, m] => match parseCodeOpt? c, parseCodeOpt? m with
+      | some c, some m => some (fun a => match a with | .compat => c | .smallest => m)
+      | _, _ => none
+  | _ => none
+
+def parseTable? (s : String) : Option (List (Nat × WEntry)) :=
+  if s = "-" then some [] else
+    (s.splitOn ";").mapM fun e =>
+      match e.splitOn ":" with
+      | [c, ok, sl, i, nw, wb] =>
+          match c.toNat?, parseBool? ok, parseScl? sl, parseScl? i, nw.toNat?, wb.toNat? with
+          | some c, some ok, some sl, some i, some nw, some wb => some (c, ⟨ok, sl, i, nw, wb⟩)
+          | _, _, _, _, _, _ => none
+      | _ => none
+
+def parseDt? (s : String) : Option DtReq :=
+  if s = "-" then some .none
+  else if s = "x" then some .bad
+  else if s = "ac" then some (.alias .compat)
+  else if s = "as" then some (.alias .smallest)
+  else if s.startsWith "c" then (s.drop 1).toString.toNat?.map DtReq.code
+  else none
+
+def parseFault? (s : String) : Option Fault :=
+  if s = "-" then some .none
+  else if s.startsWith "k" then (s.drop 1).toString.toNat?.map Fault.call
+  else if s.startsWith "b" then (s.drop 1).toString.toNat?.map Fault.bytes
+  else none
+
+def parseFm? (s : String) : Option (Option Nat) :=
+  if s = "-" then some none else s.toNat?.map some
+
+inductive DOp where
+  | save (orig : Bool) (req : SaveReq)
+  | setDtype (c : Nat)
+  | setAlias (a : Alias)
+
+def parseOp? (s : String) : Option DOp :=
+  match s.splitOn ":" with
+  | [k, dt, f, fm] =>
+      if k = "S" ∨ k = "OS" then
+        match parseDt? dt, parseFault? f, parseFm? fm with
+        | some dt, some f, some fm => some (.save (k = "OS") ⟨dt, fm, f⟩)
+        | _, _, _ => none
+      else none
+  | ["D", c] => c.toNat?.map DOp.setDtype
+  | ["A", "c"] => some (.setAlias .compat)
+  | ["A", "s"] => some (.setAlias .smallest)
+  | _ => none
+
+def showErr : Option Err → String
+  | none => "ok"
+  | some .os => "ERR:OSError" | some .writer => "ERR:WriterError"
+  | some .headerData => "ERR:HeaderDataError" | some .value => "ERR:ValueError"
+  | some .type => "ERR:TypeError" | some .assertion => "ERR:AssertionError"
+
+def showScl : Scl → String
+  | none => "n" | some b => toString b
+
+def showAlias : Option Alias → String
+  | none => "-" | some .compat => "c" | some .smallest => "s"
+
+def showFile : File → String
+  | .header => "h" | .image => "i" | .mat => "m"
+
+def showCall (c : IoCall) : String :=
+  showFile c.file ++ (match c.kind with
+    | .write n => "w" ++ toString n | .seek t => "s" ++ toString t | .tell => "t" | .close => "c")
+
+/-- first-seen index of `x` in `seen` (appending it when new) -/
+def firstSeen {α} [DecidableEq α] (seen : List α) (x : α) : List α × Nat :=
+  match seen.idxOf? x with
+  | some i => (seen, i)
+  | none => (seen ++ [x], seen.length)
+
+structure St where
+  img   : Img
+  hdrs  : List Hdr
+  outs  : List (List Chunk)
+  acc   : List String
+
+def showState (st : St) (img : Img) : St × String :=
+  let (hs, hid) := firstSeen st.hdrs img.core.hdr
+  let h := img.core.hdr
+  ({ st with hdrs := hs },
+   s!"{h.offset},{h.dtype},{showScl h.slope},{showScl h.inter},{showAlias img.core.alias},{img.fileMap},{img.core.hdrObj},h{hid}")
+
+def runOp (cls : Cls) (env : Env) (st : St) : DOp → St
+  | .save orig req =>
+      let o := if orig then saveOrig cls env req st.img else save cls env req st.img
+      let (st1, s) := showState st o.img
+      let (outs, oid) := match o.err with
+        | none => let (os, i) := firstSeen st1.outs o.out; (os, toString i)
+        | some _ => (st1.outs, "-")
+      let line := s!"{showErr o.err} n={o.calls} [{",".intercalate (o.log.map showCall)}] {s} out={oid}"
+      { st1 with img := o.img, outs := outs, acc := st1.acc ++ [line] }
+  | .setDtype c =>
+      let r := step cls st.img (.setDtype c)
+      let (st1, s) := showState st r.2
+      { st1 with img := r.2, acc := st1.acc ++ [s!"{showErr r.1} {s}"] }
+  | .setAlias a =>
+      let r := step cls st.img (.setAlias a)
+      let (st1, s) := showState st r.2
+      { st1 with img := r.2, acc := st1.acc ++ [s!"{showErr r.1} {s}"] }
 
 def handle : List String → String
+  | ["run", cls, owned, hdr, alias, exts, mat, resolve, table, ops] =>
+      match parseCls? cls, parseBool? owned, parseHdr? hdr, parseAliasOpt? alias, parseExts? exts,
+            parseNatList? mat, parseResolve? resolve, parseTable? table, (ops.splitOn ";").mapM parseOp? with
+      | some cls, some owned, some hdr, some alias, some exts, some mat, some resolve, some table, some ops =>
+          let writer : Nat → WEntry := fun c =>
+            match table.lookup c with
+            | some e => e
+            | none => ⟨false, none, none, 0, 0⟩
+          let env : Env := { owned := owned, exts := exts, mat := mat, resolve := resolve, writer := writer }
+          let img : Img := { core := { hdr := hdr, alias := alias, data := 1, affine := 2, hdrObj := 0 }, fileMap := 0 }
+          let (st0, s0) := showState { img := img, hdrs := [], outs := [], acc := [] } img
+          let st := ops.foldl (runOp cls env) { st0 with acc := [s0] }
+          " | ".intercalate st.acc
+      | _, _, _, _, _, _, _, _, _ => "bad-op"
   | _ => "bad-op"
 
 end Nb.Drv.C07
